@@ -260,11 +260,20 @@ Definition chk_C03 (c o : value) : bool :=
   | VL [p; VL ops0; _; VL [VI 3]] =>
       match dec_ops ops0 with
       | Some ops =>
-          let aops := app_ops ops in
+          (* the application's calls: those in the schedule, or - for a response written from inside the request notification -
+             the reaction to headersParsed (the request itself, whatever its method and headers, does not show in the response) *)
+          let react := match dec_pol p with
+                       | Some pl => match on_ready pl, on_finished pl with [], [] => Some (on_headers pl dummy_request 0) | _, _ => None end
+                       | None => None
+                       end in
+          let aops := match react with Some r => r ++ app_ops ops | None => app_ops ops end in
           let st := fold_left c03_step aops
                       {| ph := PSetup; ar := a_init; body_exp := []; conv := 0; closed_exp := false; dom_ok := true |} in
           let dom := dom_ok st && forallb aop_clean aops &&
-                     forallb (fun o => match o with App _ | Construct | Ack _ | Turn => true | _ => false end) ops &&
+                     forallb (fun o => match o with App _ | Construct | Ack _ | Turn => true
+                                                | Feed _ => match react with Some (_ :: _) => true | _ => false end
+                                                | _ => false end) ops &&
+                     match react with Some _ => true | None => false end &&
                      match ops with Construct :: _ => true | _ => false end in
           if negb dom then true
           else
@@ -345,7 +354,15 @@ Definition chk_C18 (c o : value) : bool :=
                 let st := c18_walk ops h l in
                 if negb (dom18 st) then true
                 else ok18 st &&
-                     (if negb (closed18 st) && (acked st =? tx st) then emitted st =? tx st - h else true)
+                     (if negb (closed18 st) && (acked st =? tx st)
+                      then (emitted st =? tx st - h) &&
+                           (* ... which is what the application wrote as body (plain writes only; the request, if any, plays no part) *)
+                           (let aops := match dec_pol p with Some pl => on_headers pl dummy_request 0 ++ on_ready pl | None => [] end ++ app_ops ops in
+                            if forallb (fun a => match a with AWrite _ | AWriteHeaders | ASetStatus _ _ | ASetHeader _ _ _ | ASetHeaders _ => true | _ => false end) aops
+                               && existsb (fun o => match o with Construct => true | _ => false end) ops
+                            then emitted st =? fold_left (fun acc a => match a with AWrite b => acc + blen b | _ => acc end) aops 0
+                            else true)
+                      else true)
             end
       | None => true
       end
